@@ -196,13 +196,13 @@ Qed.
 
 (** * the response of the wildcard handler to a request without a valid session *)
 
-Theorem handler_unauth_cases m cf pats ings r :
-  (handler_unauth m cf true pats ings r = Forward /\ needs_login m cf true pats false (rq_path r) = false)
+Theorem handler_unauth_cases m cf seg pats ings r :
+  (handler_unauth m cf seg true pats ings r = Forward /\ needs_login m cf true pats false (rq_path r) = false)
   \/ (needs_login m cf true pats false (rq_path r) = true /\
-      let prefix := matching_path ings (rq_path r) [] in
+      let prefix := matching_path seg ings (rq_path r) [] in
       if is_navigation (rq_method r) (rq_mode r) (rq_dest r) (rq_accept r)
-      then handler_unauth m cf true pats ings r = Redirect302 (login_relative prefix (rq_url_string r))
-      else handler_unauth m cf true pats ings r =
+      then handler_unauth m cf seg true pats ings r = Redirect302 (login_relative prefix (rq_url_string r))
+      else handler_unauth m cf seg true pats ings r =
            Unauthorized401 (login_relative prefix (match rq_referer r with [] => prefix | t => t end))
                            (accepts (rq_accept r) [s_any; s_app_json])).
 Proof.
